@@ -102,12 +102,12 @@ def inputs(tier):
             if n > (12 if tier == "quick" else 27):
                 continue
             out.append(("grid", list(shp)))
-    for u in ("2x2", "3x2", "2x2x2"):
+    for u in ("2x2", "3x2", "2x2x2", "mixnum"):
         names, vals = UNIVERSES[u]
         pts = list(itertools.product(*vals))
         for size in (1, 2, 3):
             subs = list(itertools.combinations(range(len(pts)), size))
-            if tier == "quick":
+            if tier == "quick" and u != "mixnum":
                 subs = subs[::3]
             for sub in subs:
                 out.append(("cases", [u, list(sub)[::-1] if size % 2 else
@@ -126,7 +126,10 @@ def cases(tier, seed):
     if tier == "quick":
         # quick thins the *inputs*; every spelling of every description goes
         # through every entry point on the inputs that remain
-        ins = ins[::4]
+        # (the small mixed-type universe is kept whole)
+        ins = [x for i, x in enumerate(ins)
+               if core.pick([x, "in"], 4) == 0
+               or (x[0] == "cases" and x[1][0] == "mixnum" and x[1][2] == 0)]
     for ii, ((ik, ispec), (dname, d)) in enumerate(
             itertools.product(ins, DESCS.items())):
         spell = list(itertools.product(range(len(d["vn"])), range(len(d["vd"]))))
@@ -260,7 +263,10 @@ def check_case(case):
                         if cs is None:
                             runner.run_combos(combos, constants={"k": 5}, **pk)
                         else:
-                            runner.run_cases(cs[:1], fn_args=list(cnames),
+                            # (argument names given for that run only, in
+                            # the opposite order)
+                            runner.run_cases([tuple(cs[0][::-1])],
+                                             fn_args=list(cnames)[::-1],
                                              constants={"k": 5}, combos=(
                                                  tuple(combos.items())
                                                  if combos else ()), **pk)
@@ -279,7 +285,8 @@ def check_case(case):
                     if cs is None:
                         out = runner.run_combos(combos, **kw)
                     else:
-                        out = runner.run_cases(cs, fn_args=None if sigrev
+                        out = runner.run_cases(cs, fn_args=None if (
+                            sigrev or case.get("prev_override"))
                                                else list(cnames),
                                                combos=(tuple(combos.items())
                                                        if combos else ()), **kw)
